@@ -20,6 +20,8 @@ MUTATORS = {
         ("exponent not added when combining", r"quimb/tensor/tensor_core\.py$", r"^(\s+)self\.exponent = self\.exponent \+ tn\.exponent\s*$", r"\1pass"),
         ("astype drops is_conj", r"quimb/tensor/tensor_core\.py$", r"^(\s+)is_conj=self\.is_conj,\s*$", None),
         ("partition drops exponent", r"quimb/tensor/tensor_core\.py$", r"^(\s+)t1\.exponent = self\.exponent\s*$", None),
+        ("partial contraction with default output", r"quimb/tensor/tensor_core\.py$", r"^(\s+)output_inds=local_output_inds,\s*$", None),
+        ("contract_tags: default output for a partial contraction", r"quimb/tensor/tensor_core\.py$", r"^(\s+)ix for ix, c in freqs\.items\(\) if \(c == 1\) or \(ix in tn\.ind_map\)\s*$", r"\1ix for ix, c in freqs.items() if (c == 1)"),
         ("contract_tags ignores stored exponent", r"quimb/tensor/tensor_core\.py$", r"^(\s+)exponent = exponent \+ tn\.exponent\s*$", r"\1pass"),
     ],
     "C02": [
